@@ -4,6 +4,7 @@ C09 -- daemon/timer life cycle: one instance at a time, started on match, stoppe
 from __future__ import annotations
 
 import hashlib
+import copy
 import random
 from typing import Any
 
@@ -121,10 +122,34 @@ def rnd_desc(rng: random.Random, i: int) -> dict[str, Any]:
     return desc
 
 
+def directed() -> list[dict[str, Any]]:
+    """Race windows that random timelines hit only now and then; here by construction, for every phase shift of the fake server."""
+    out: list[dict[str, Any]] = []
+    base = {'quiet': 12.0, 'horizon': 400.0, 'latency': 0.001, 'end': 'stop', 'exit_wait': 120.0,
+            'settings': {'queueing__idle_timeout': 1.0, 'persistence__consistency_timeout': 0.5, 'background__cancellation_polling': 1.0}}
+    # A one-shot timer/self-exiting daemon starts matching in one event while another daemon stops matching in the very next one:
+    # the first is spawned, exits on its own while the second is being signalled, and must not be spawned again.
+    oneshots = [{'kind': 'timer', 'id': 's0', 'opts': {'labels': {'l': 'a'}}},
+                {'kind': 'daemon', 'id': 's0', 'persona': {'type': 'selfexit', 'after': 0.0}, 'opts': {'labels': {'l': 'a'}}}]
+    other = {'kind': 'daemon', 'id': 's1', 'persona': {'type': 'linger', 'linger': 2.0}, 'opts': {'field': 'spec.on', 'value': True, 'cancellation_backoff': 1.0}}
+    for k, one in enumerate(oneshots):
+        for py in (0, 1, 2, 3, 5, 8):
+            for gap in (0.0, 0.001):
+                for peering in (False, True):
+                    tl = [[0.0, 'create', 'o0', {'spec': {'on': True, 'x': 0}, 'metadata': {'labels': {'l': 'b'}}}], [0.5, 'start', 'op1'],
+                          [3.3, 'edit', 'o0', {'metadata': {'labels': {'l': 'a'}}}], [round(3.3 + gap, 6), 'edit', 'o0', {'spec': {'on': False}}],
+                          [9.0, 'edit', 'o0', {'spec': {'x': 1}}], [14.0, 'delete', 'o0']]
+                    d = {**copy.deepcopy(base), 'seed': 1, 'handlers': [copy.deepcopy(one), copy.deepcopy(other)], 'timeline': tl, 'post_yields': py}
+                    if peering:
+                        d['peering'] = {'name': 'default'}
+                    out.append({'name': f'dir-oneshot{k}-py{py}-g{gap}-p{int(peering)}', 'desc': d})
+    return out
+
+
 def gen_cases(tier: str, seed: int):
     rng = random.Random(f'C09-{seed}')
     n = 600 if tier == 'quick' else 15000
-    return [{'name': f'rnd{i}', 'desc': rnd_desc(rng, i)} for i in range(n)]
+    return directed() + [{'name': f'rnd{i}', 'desc': rnd_desc(rng, i)} for i in range(n)]
 
 
 def _matches(spec: dict[str, Any], body: dict[str, Any]) -> bool:
